@@ -103,8 +103,18 @@ def r3_ignore_wiring(cx):
                construct=short(app[0]) if app else "(no %s.append(%s))" % (handlers, comp))
     # handler table of the highest class in the MRO that has the name
     tbl = [a for a in walk_body(fn.body) if isinstance(a, ast.Assign) and "context_handlers" in U(a.value)]
-    pdef = [a for a in walk_body(fn.body) if isinstance(a, ast.Assign) and U(a.targets[0]) == ps[0]]
-    ok = bool(tbl) and U(tbl[0].value) == "%s[-1].context_handlers" % ps[0] and bool(pdef) and "takewhile" in U(pdef[0].value) and "in x.registry" in U(pdef[0].value)
+    ok = False
+    if tbl:
+        v = tbl[0].value
+        # <owners>[-1].context_handlers where <owners> is the leading run of parents whose registry has the name
+        if isinstance(v, ast.Attribute) and v.attr == "context_handlers" and isinstance(v.value, ast.Subscript) and U(v.value.slice) == "-1":
+            owners = v.value.value
+            src = owners
+            if isinstance(owners, ast.Name):
+                ds = [a for a in walk_body(fn.body) if isinstance(a, ast.Assign) and U(a.targets[0]) == owners.id and a.lineno < tbl[0].lineno]
+                src = ds[-1].value if ds else owners
+            t = U(src)
+            ok = "takewhile" in t and "in x.registry" in t and t.rstrip(")").endswith(ps[0])
     cx.require(ok, tbl[0] if tbl else fn, "the handler table is that of the highest class in the MRO whose registry has the name",
                construct=short(tbl[0]) if tbl else "(no context_handlers look-up)")
     # the contexts of an implementation are discovered through its whole dependency tree
